@@ -43,7 +43,8 @@ Flags == [dry: BOOLEAN, print: BOOLEAN, log: BOOLEAN, out: BOOLEAN]
 
 Gen(v) == "gen:" \o v
 Trunc(v, k) == "trunc:" \o v \o ":" \o k
-Blocked == {"dir", "noparent"}
+\* "selflink": a symbolic link to the setup file sits at the -out path - writing there would overwrite a source
+Blocked == {"dir", "noparent", "selflink"}
 Garbage == {"broken", "illtyped"}
 
 VARIABLES setup,   \* version of the setup file
@@ -121,7 +122,8 @@ Writable(f)  == Target(f) \notin Blocked
 
 \* stage results
 StageLog(f)   == LogOpenable(f)                    \* OpenLog: truncates/creates the log first
-StageBuild(f) == StageLog(f) /\ Accepts(setup)     \* Load .. Build .. Format
+SelfOut(f)    == f.out /\ outC = "selflink"       \* the output path is the setup file itself: refused, with or without -dry
+StageBuild(f) == StageLog(f) /\ Accepts(setup) /\ ~SelfOut(f)     \* Load .. Build .. Format
 Writes(f)     == StageBuild(f) /\ ~f.dry /\ Writable(f)
 ExitOf(f)     == IF StageBuild(f) /\ (f.dry \/ Writable(f)) THEN "0" ELSE "1"
 \* -print shows the code that is (or with -dry would be) written
